@@ -301,6 +301,8 @@ func checkC06(w *World, r *Report) {
 	r.rule("C06.brackets", "for each collection type the (open, close) pair the printer emits equals the (start, end) pair of the read_list call in the reader function that constructs that type; the keyword marker is one and the same constant in NewKeyword, Keyword_Q, String_Q, the printer and type?, and the printer strips exactly the marker's byte length and prints the character the reader strips")
 	r.rule("C06.slice", "the reader strips exactly the delimiter bytes the printer adds around quoted and raw strings")
 	tokenVerbatimRule(w, r, "C06.token-text")
+	textIntactRule(w, r, "C06.text-intact")
+	keywordInjectiveRule(w, r, "C06.keyword")
 	intInverseRule(w, r, "C06.int")
 	ps, why := findPrinterStringBranches(w, e)
 	if why != "" {
@@ -665,6 +667,39 @@ func checkC16(w *World, r *Report) {
 			}
 		}
 	}
+	// who may say "incomplete": the message shape the REPL takes for "keep reading" is built only where the
+	// token stream really ends inside an open bracket (the template in read_list) and for the raw-string
+	// delimiter (read_atom); any other place that builds such a message classifies input by another criterion
+	r.rule("C16.eof-sites", "error messages of the shape the REPL's classifier recognises as 'incomplete' are built only by read_list's template and read_atom's raw-string case: no other function of the reader decides that a text is incomplete")
+	nEof := 0
+	for _, fn := range w.pkgFuncs("reader") {
+		for _, b := range fn.Blocks {
+			for _, in := range b.Instrs {
+				c, ok := in.(*ssa.Call)
+				if !ok || c.Call.StaticCallee() == nil || len(c.Call.Args) == 0 {
+					continue
+				}
+				switch fnPkgPath(c.Call.StaticCallee()) + "." + c.Call.StaticCallee().Name() {
+				case "errors.New", "fmt.Errorf", "fmt.Sprintf":
+				default:
+					continue
+				}
+				parts := concatParts(c.Call.Args[0])
+				first, _ := constString(parts[0])
+				last, _ := constString(parts[len(parts)-1])
+				whole, isConst := constString(c.Call.Args[0])
+				shaped := (len(parts) > 1 && first != "" && strings.HasPrefix(first, prefix) && strings.HasSuffix(last, suffix) && suffix != "") ||
+					(isConst && strings.HasPrefix(whole, prefix) && strings.HasSuffix(whole, suffix) && suffix != "")
+				if !shaped {
+					continue
+				}
+				nEof++
+				okSite := c == tmplCall || fn == readAtom
+				r.check(okSite, "C16.eof-sites", fn, "construction of an 'incomplete input' message", c.Pos(), "read_list's template or read_atom's raw-string case", "an 'expected …, got EOF' message is built outside the place where the token stream ends inside an open bracket: texts are declared incomplete (or given the wrong closer) by a different criterion than the parser's")
+			}
+		}
+	}
+	r.floor("C16.eof-sites", "constructions of 'incomplete input' messages", nEof, 2)
 	replMsgs := map[string]bool{}
 	for _, b := range multi.Blocks {
 		if iff := blockIf(b); iff != nil {
@@ -1035,6 +1070,7 @@ func checkC15(w *World, r *Report) {
 	r.check(okOff, "C15.format", rwp, "key offset", rwp.Pos(), fmt.Sprintf("strips %d bytes, the writer's prefix", len(wprefix)), "the reader does not strip exactly the writer's prefix from the key")
 	// the pattern, evaluated on lines of the writer's shape
 	pat := ""
+	textIntactRule(w, r, "C15.text-intact")
 	r.rule("C15.verbatim", "the preamble line matched against the pattern is a piece of the text that was passed in, cut out only by operations that return part of their input unchanged (Cut, Trim…, slicing): a value's characters, including runs of blanks inside strings, reach the reader as they were written")
 	nvb := 0
 	for _, b := range rwpBlocks {
